@@ -22,7 +22,15 @@ RULE = ("Hypothesis draws well-formed definition closures (vlib.defgen.programs:
         "structs, host and module ids, nested structs and messages, arrays with literal and expression lengths, signals, field-list "
         "reuse, reserved ids, all three compiler options drawn), half of them forced to the 5-file skeleton so that cross-file use "
         "dominates; the classes that were tied to (now repaired) defects - alias-of-imported-struct, alias-of-imported-struct-field, "
-        "struct-contains-message, string-special, prefix-names - are enabled in every second program, singly and together; every shard starts "
+        "struct-contains-message, string-special, prefix-names - are enabled in every second program, singly and together; two programs in nine use the "
+        "documented constructs in less usual form (classes many-symbols: a constant or array-length expression that names 11-16 constants; string-control: string "
+        "constants with line breaks, tabs, carriage returns; rich-operators: constant and length expressions with << >> | & ^ ~ // % ** and unary signs; "
+        "inexact-div-length: lengths such as (BITS / 8) * N whose quotient is not whole), one in nine is a closure with ONE construct of vlib.defgen.add_hygiene "
+        "whose names are identifiers in all four languages (a constant that is .inf / -.inf / .nan - literal or result of an expression - or a YAML bool; a field "
+        "named like a descriptor class of the generated Python class body followed by a field that needs it; a field named like the struct / MDF_<message> type of a "
+        "later field; a constant or string constant named like a field) - each of those 14 kinds also runs once per run on a two-message base: the compiler may refuse "
+        "such a closure with one of its own errors (counted), an internal error or an accepted closure whose output does not load is a finding under the construct's "
+        "own class; every shard starts "
         "with hand-written covering programs (constants whose names contain one another - CHANS/CHANS_MAX, LEN/MAX_LEN, N1/N10 - used "
         "together in expressions and array lengths; alias chains of length 2 and 3 ending in an imported struct, used as scalar and array "
         "field in a struct and in messages; the 26 native names; long float constants) and with files whose constant / string constant / alias / host id / struct is named like "
@@ -40,12 +48,21 @@ ASSUME = [
     "identifiers come from a vocabulary legal in Python, C, JavaScript and MATLAB",
     "a bare definition named like a name the compilers generate for another one (struct MT_X next to message X) may be refused by the compiler with DuplicateNameError (not a finding)",
     "a definition named like something the generated Python module uses itself may be refused by the compiler (counted only); field names with a leading underscore are not legal MATLAB identifiers and are C04's subject (near misses), not C15's",
+    "names that are no identifiers (MAX-N), definitions named like native types, fields named like Python or C keywords are outside 'identifiers that are legal in all four target languages': C04 generates them, C15 does not",
+    "non-finite and boolean constants, fields named like Python descriptor classes or later field types, constants named like fields: refusal by the compiler is accepted, silent acceptance with an output that does not load is not",
+    "constant expressions: every operator Python's arithmetic on numbers knows (the compiler evaluates the expanded text as such) as long as the value is a whole number or a finite float that every back end prints as a plain number",
     "array length 0 is not a documented construct and is not generated here (C04 covers it)",
     "most Python modules are imported in a fork of an interpreter that has done nothing but `import pyrtma` (same state as a fresh interpreter, without its start-up cost)",
 ]
 
 SUSPECT = ("alias-of-imported-struct", "alias-of-imported-struct-field", "struct-contains-message", "string-special", "prefix-names", "long-names")
 PREFIXES = ("MT_", "MID_", "HID_")
+# documented constructs in less usual form: expressions that name more than ten constants, string constants with line breaks / tabs,
+# constant and length expressions with shifts, bitwise operators, //, %, ** and unary signs, lengths whose '/' does not come out whole
+EXPRS = ("many-symbols", "string-control", "rich-operators", "inexact-div-length")
+# single constructs a careful compiler refuses and a careless one writes verbatim into its outputs (vlib.defgen.add_hygiene); only the
+# kinds whose names are identifiers in all four languages belong to this property
+HYGIENE = G.HYGIENE_LEGAL_IDENTIFIERS
 
 
 def _kind_of(program, name):
@@ -98,6 +115,8 @@ def classify_compile_error(program, e: L.CompileError):
         return "empty-file"
     if e.kind == "YAMLSyntaxError" and _has_special_string(program):
         return "string-special"
+    if e.kind == "RecursionError" and "many-symbols" in program.classes and "expand_expression" in fn:
+        return "many-symbols"
     return "general"
 
 
@@ -194,7 +213,7 @@ def _case_findings(program: G.Program, ex: L.Exam):
                 cls = _name_class(program, leaf)
             out.append((f"matlab/undefined-field/{cls}", f"the MATLAB script refers to a field it has not defined: {e}"[:400]))
         else:
-            cls = "string-special" if special and "defines" in e.text else "general"
+            cls = "string-control" if "string-control" in program.classes and "defines" in e.text else "string-special" if special and "defines" in e.text else "general"
             out.append((f"matlab/{type(e).__name__}/{cls}", f"the MATLAB script is not executable: {e}"[:400]))
     return out
 
@@ -224,7 +243,7 @@ def run_case(E: L.Examiner, program: G.Program, res: Result = None, fresh_py=Tru
         for c in program.classes:
             if c in SUSPECT or c in ("cross-file-struct-field", "cross-file-message-field", "reuse-cross-file", "alias-field", "alias-of-alias",
                                      "alias-of-imported-alias", "message-in-message", "struct-array", "reserved-range-dash", "reserved-range-to",
-                                     "multi-path", "cycle", "respell", "signal", "needs-padding"):
+                                     "multi-path", "cycle", "respell", "signal", "needs-padding") or c in EXPRS:
                 res.count("class/" + c)
         nt, sh = shape_of(program)
         if nt and ex.compile_error is None and not ex.hung:
@@ -265,12 +284,41 @@ def run_module_name_case(E: L.Examiner, kind, name, src, opts, res: Result = Non
     return out
 
 
+def run_hygiene_case(E: L.Examiner, program: G.Program, res: Result = None, fresh_py="fork"):
+    """A closure with one construct of vlib.defgen.add_hygiene: the compiler may refuse it with one of its own errors (counted);
+    an internal error, or an accepted closure whose output does not load, is a finding under the construct's own class."""
+    exp = program.expect
+    label = exp["label"]
+    ex = E.examine(program, program.compile_kwargs(), expect=None, fresh_py=fresh_py, c_mode="syntax")
+    if res is not None:
+        res.count("hygiene-programs")
+        res.count("hygiene/" + label)
+        res.inconclusive += len(ex.timeouts)
+    if ex.hung:
+        return []
+    if ex.compile_error is not None and ex.compile_error.is_parser_error:
+        if res is not None:
+            res.count("hygiene-programs/refused-by-the-compiler")
+        return []
+    out = []
+    for key, what in _case_findings(_NoModel(), ex):
+        lang, fail = key.split("/")[:2]
+        out.append((f"{lang}/{fail}/{label}", f"[{exp['hygiene']}: {exp.get('name')}] {what}"[:400]))
+    if res is not None and ex.compile_error is None:
+        res.count("hygiene-programs/accepted")
+        if not out:
+            res.count("hygiene-programs/accepted-and-all-outputs-load")
+    return out
+
+
 def st_programs():
     plain = G.programs()
     skel = G.programs(skeleton=True)
     rich = G.programs(skeleton=True, rich=True)
     opt = st.sampled_from([SUSPECT, SUSPECT[:2], SUSPECT[2:3], SUSPECT[3:4], SUSPECT[4:5], SUSPECT[5:]]).flatmap(lambda a: G.programs(skeleton=True, allow=a))
-    return st.one_of(plain, skel, rich, opt, opt, opt)
+    exprs = st.sampled_from([EXPRS, EXPRS[:1], EXPRS[1:2], EXPRS[2:]]).flatmap(lambda a: G.programs(allow=a, rich=True))
+    hyg = G.hygiene_programs(kinds=HYGIENE, max_files=3)
+    return st.one_of(plain, skel, rich, opt, opt, opt, exprs, exprs, hyg)
 
 
 def shard(seed, n, idx, quick):
@@ -281,6 +329,10 @@ def shard(seed, n, idx, quick):
         def body(program):
             k[0] += 1
             fresh = True if k[0] <= 2 else "fork"
+            if "hygiene" in program.classes:
+                for key, what in run_hygiene_case(E, program, res):
+                    res.add_finding(key, what, {"key": key, "program": program.to_json()})
+                return
             for key, what in run_case(E, program, res, fresh_py=fresh):
                 res.add_finding(key, what, {"key": key, "program": program.to_json()})
             if len(res.samples) < 2:
@@ -309,6 +361,13 @@ def shard(seed, n, idx, quick):
             for key, what in run_module_name_case(E, kind, name, src, opts, res):
                 res.add_finding(key, what, {"key": key, "module_name": [kind, name], "src": src, "opts": opts})
             res.evaluations += 1
+        # value / name hygiene: every kind once per run on the smallest base (kind j on shard j mod 16), core definitions on or off by seed
+        for j, kind in enumerate(HYGIENE):
+            if j % 16 == idx:
+                q = G.add_hygiene(G.minimal_program(import_coredefs=bool((seed + j) % 2)), G.RandomChooser(seed * 100 + j), kind)
+                for key, what in run_hygiene_case(E, q, res):
+                    res.add_finding(key, what, {"key": key, "program": q.to_json()})
+                res.evaluations += 1
         hyp_run(body, st_programs(), seed, n, res, collect=True)
     finally:
         E.close()
@@ -318,7 +377,7 @@ def shard(seed, n, idx, quick):
 
 def run(ctx: RunContext) -> int:
     t0 = time.time()
-    n = ctx.scale(20, 190)
+    n = ctx.scale(28, 260)
     res = run_shards(shard, [(derive_seed(ctx.seed, i), n, i, ctx.quick) for i in range(16)])
     return conclude(ctx, res, RULE, ASSUME, t0)
 
@@ -328,6 +387,8 @@ def replay_trace(trace: dict):
     try:
         if "module_name" in trace:
             fnd = run_module_name_case(E, trace["module_name"][0], trace["module_name"][1], trace["src"], trace["opts"], None)
+        elif "hygiene" in trace["program"].get("classes", ()):
+            fnd = run_hygiene_case(E, G.Program.from_json(trace["program"]), None, fresh_py=True)
         else:
             fnd = run_case(E, G.Program.from_json(trace["program"]), None, fresh_py=True)
     finally:
